@@ -41,6 +41,7 @@ ONE_SIDED_OK = {
     ("asgi", "middleware", "CachedStream.push"): "spooled body buffer",
     ("asgi", "middleware", "CachedStream.push_eof"): "spooled body buffer",
     ("asgi", "middleware", "CachedStream.__anext__"): "spooled body buffer",
+    ("wsgi", "staticfiles", "request_path"): "PATH_INFO -> text (Latin-1 bytes re-decoded as UTF-8); ASGI servers deliver scope['path'] already decoded",
     ("wsgi", "middleware", "ensure_next"): "forces the first chunk so that start_response has been called (WSGI only)",
     ("wsgi", "middleware", "ensure_next.generator"): "forces the first chunk (WSGI only)",
 }
@@ -89,8 +90,10 @@ SANCTIONED: Dict[Tuple[str, str], List[Tuple[str, str, str]]] = {
     ("responses", "StreamResponse.render_stream"): [("asgi", r"'(close|aclose)'", "ASGI closes the async iterable itself; a WSGI server calls close() on the response iterable")],
     ("responses", "StreamingResponse.__call__"): [("asgi", r"'(close|send|wait_close)'", "disconnect watcher and generator driving are ASGI plumbing (C06)")],
     ("routing", "Hosts.__call__"): [("asgi", r"^\('const', \"'headers'\"\)", "header scan loop")],
-    ("staticfiles", "Files.__call__"): [("asgi", r"^\('const', \"'headers'\"\)", "header scan loop")],
-    ("staticfiles", "Pages.__call__"): [("asgi", r"^\('const', \"'headers'\"\)", "header scan loop")],
+    ("staticfiles", "Files.__call__"): [("asgi", r"^\('const', \"'headers'\"\)", "header scan loop"),
+                                        ("*", r"^\('call', '(ensure_absolute_path|request_path)', \((\"REQ\['path'\]\"|'request_path\(REQ\)'|)", "WSGI re-decodes PATH_INFO (Latin-1 -> UTF-8) through request_path(); ASGI reads scope['path'] (R4.7)")],
+    ("staticfiles", "Pages.__call__"): [("asgi", r"^\('const', \"'headers'\"\)", "header scan loop"),
+                                        ("*", r"^\('call', '(ensure_absolute_path|request_path)', \((\"REQ\['path'\]\"|'request_path\(REQ\)'|)", "WSGI re-decodes PATH_INFO (Latin-1 -> UTF-8) through request_path(); ASGI reads scope['path'] (R4.7)")],
     ("shortcut", "request_response"): [("asgi", r"websocket|WebsocketDenialResponse|'Response', \('404',\)|'404'|not \(REQ\['type'\]", "ASGI apps also receive websocket scopes and deny them")],
     ("shortcut", "request_response.wsgi"): [("asgi", r"websocket|WebsocketDenialResponse|'Response', \('404',\)|'404'|not \(REQ\['type'\]", "ASGI apps also receive websocket scopes and deny them"),
                                             ("wsgi", r"^\('call', 'Request', \(\), \(\), \(\)\)", "same call, unguarded on WSGI")],
@@ -311,6 +314,22 @@ def run(p: Program, rep: Report, tier: str) -> None:
 
     gateway_url_branches(p, rep, "R4.6")
     rep.require_instances("R4.6", 12)
+
+    # ---------------------------------------------------------------- R4.7 the request path means the same text on both interfaces
+    from .c07 import wsgi_path_text_uses
+
+    n47 = 0
+    for f_, c_, ok_ in wsgi_path_text_uses(p):
+        n47 += 1
+        if ok_:
+            rep.ok("R4.7", f"{f_.fq}: PATH_INFO is re-decoded (Latin-1 -> UTF-8) before it is used as text, like scope['path']")
+        else:
+            rep.violation("R4.7", construct(f_, text=f"PATH_INFO as text in self.{c_.func.attr}(...)"), where(f_, c_),
+                          f"{f_.fq} matches environ['PATH_INFO'] against text (self.{c_.func.attr}) without re-decoding it: WSGI delivers the path bytes as Latin-1 text, ASGI as UTF-8 text, so the same "
+                          "request for a non-ASCII path (/café) is routed on ASGI and answered 404 on WSGI")
+    if n47 == 0:
+        rep.undecide("R4.7", "no text-level use of PATH_INFO found in baize.wsgi")
+    rep.require_instances("R4.7", 4)
 
 
 def _filter(items: Counter, side: str, sanc) -> List:
